@@ -110,6 +110,8 @@ pub fn export_universe(u: &Universe, p: &Prob, out: &mut String) {
 /// The C++ interface cannot express Unknown dependencies, empty unions are fine; make a
 /// universe expressible (and mirror what the bridge does: hints become an explicit list).
 pub fn make_expressible(u: &mut Universe) {
+    // the C++ drivers' filter_candidates keeps the order of its input
+    u.filter_order = 0;
     for s in &mut u.solvs {
         if matches!(s.deps, Deps::Unknown(_)) {
             s.deps = Deps::Known { reqs: vec![], cons: vec![] };
@@ -149,6 +151,8 @@ impl Monitor for C17 {
         let (name, cfg) = pick_family(r, FAMILIES);
         let (mut u, p) = gener::generate(r, &cfg);
         make_expressible(&mut u);
+        // the C++ driver's filter_candidates keeps the order of its input
+        u.filter_order = 0;
         SolverCase { family: name.into(), u, p, runs: vec![SolveOpts::default()] }
     }
     fn check(&self, c: &SolverCase, ctx: &mut Ctx) {
